@@ -555,3 +555,8 @@ def finish(ctx):
     ctx.need("cola:%s/2" % fam, 64)
   for fam in COLA4:
     ctx.need("cola:%s/4" % fam, 32)
+
+
+# extension family (second round of seeded changes), see props/c14_x.py
+from props import c14_x as _x, ext as _ext
+_ext.install(globals(), _x)
